@@ -1844,6 +1844,9 @@ class Qube(object):
 
         obj = self.clone(recursive)
         obj._units_ = None
+        for deriv in obj._derivs_.values():     # clones, not shared with self
+            deriv._units_ = None
+            deriv._cache_.clear()
         return obj
 
     #===========================================================================
